@@ -194,7 +194,7 @@ def sorting(ctx) -> None:
     # every return hands out the sorted structure
     for n in fv.cfg.nodes:
         if n.kind == "stmt" and isinstance(n.ast, ast.Return):
-            ok = is_name(n.ast.value, groups_name) and target.id in fv.cfg.completed_loops_at(n.id)
+            ok = is_name(fv.alias_root(n.ast.value, n.id), groups_name) and target.id in fv.cfg.completed_loops_at(n.id)
             ctx.rep.check(ok, rule, f"{f.qualname}/return[{stmt_key(n.ast)[:30]}]", "returns the grouped and row-sorted structure",
                           f"`{stmt_key(n.ast)[:70]}` returns something that did not pass the grouping and row-sorting loops (shortcut path)", where=f.where(n.ast))
 
@@ -263,4 +263,4 @@ def optimize(ctx) -> None:
     ctx.rep.check(not bad_explicit, rule, f"{f.qualname}/explicit-respected", "an explicit choice is never reassigned",
                   f"`{stmt_key(bad_explicit[0].ast) if bad_explicit else ''}` overrides an explicit partition_by choice", where=f.where())
     rets = [n for n in fv.cfg.nodes if n.kind == "stmt" and isinstance(n.ast, ast.Return)]
-    ctx.rep.check(all(is_name(n.ast.value, _pb()) for n in rets) and bool(rets), rule, f"{f.qualname}/return", "returns the decided mode", "does not return the decided partition_by", where=f.where())
+    ctx.rep.check(all(is_name(fv.alias_root(n.ast.value, n.id), _pb()) for n in rets) and bool(rets), rule, f"{f.qualname}/return", "returns the decided mode", "does not return the decided partition_by", where=f.where())
